@@ -1,5 +1,6 @@
 //! Suite `idmap`, part 2: one history on a real `Xot` — every operation performs the call, prints
 //! the transcript line, updates the ground truth and evaluates the oracle.
+use crate::build_obs::{dump_tokens, Tok};
 use crate::common::{enc, guarded, Rng, Sink};
 use crate::idmap_oracle::*;
 use crate::suite_idmap::{gen_doc, POOL};
@@ -283,6 +284,14 @@ impl<'a> Hist<'a> {
     /// Find what was registered behind our back among the candidate strings (new = present in the
     /// Xot but not in the ground truth), in id order, and tell the model.
     pub fn discover(&mut self, cands: &[String]) {
+        self.discover_as(cands, None)
+    }
+
+    /// `direct = Some(request)`: the model is not told what was found — the request names the call
+    /// (`idmap parse <mode> <len> <token dump>` / `idmap html5`), the model predicts the registrations
+    /// from its parser / `html5()` model, and the response lists what the real call added (strings
+    /// in id order, then the ids the read-only lookups give).
+    pub fn discover_as(&mut self, cands: &[String], direct: Option<String>) {
         if self.cur.ns.order.len() + 2000 > CAPACITY || self.cur.pf.order.len() + 2000 > CAPACITY || self.cur.nm.order.len() + 2000 > CAPACITY {
             return; // id order = registration order only below the wrap
         }
@@ -325,16 +334,28 @@ impl<'a> Hist<'a> {
             self.cur.nm.observe(v, *n, self.fails, self.sink, &self.recent);
         }
         self.sink.stat_n("implicit.registrations", (new_ns.len() + new_pf.len() + new_nm.len()) as u64);
+        self.sink.stat_n("implicit.new_namespaces", new_ns.len() as u64);
+        self.sink.stat_n("implicit.new_prefixes", new_pf.len() as u64);
+        self.sink.stat_n("implicit.new_names", new_nm.len() as u64);
         let strs = |l: &Vec<(usize, String)>| if l.is_empty() { "-".to_string() } else { l.iter().map(|(_, s)| enc(s)).collect::<Vec<_>>().join(",") };
         let nms = if new_nm.is_empty() { "-".to_string() } else { new_nm.iter().map(|(_, (l, k))| format!("{}@{}", enc(l), k)).collect::<Vec<_>>().join(",") };
-        let req = format!("idmap implicit ns {} pf {} nm {}", strs(&new_ns), strs(&new_pf), nms);
-        let resp = format!(
-            "ok {} {} {}",
+        let id_words = format!(
+            "{} {} {}",
             ids_str(&new_ns.iter().map(|x| x.0).collect::<Vec<_>>()),
             ids_str(&new_pf.iter().map(|x| x.0).collect::<Vec<_>>()),
             ids_str(&new_nm.iter().map(|x| x.0).collect::<Vec<_>>())
         );
-        self.emit(req, resp);
+        match direct {
+            None => {
+                let req = format!("idmap implicit ns {} pf {} nm {}", strs(&new_ns), strs(&new_pf), nms);
+                self.emit(req, format!("ok {}", id_words));
+            }
+            Some(req) => {
+                self.sink.stat("implicit.predicted-by-model");
+                let resp = format!("ok ns {} pf {} nm {} ids {}", strs(&new_ns), strs(&new_pf), nms, id_words);
+                self.emit(req, resp);
+            }
+        }
         // every discovered entry must resolve to itself
         for (n, v) in new_ns {
             let id = self.bank.nss[n];
@@ -351,15 +372,49 @@ impl<'a> Hist<'a> {
     }
 
     pub fn parse_doc(&mut self, rng: &mut Rng) {
-        let doc = gen_doc(rng);
-        let r = guarded(|| self.cur.xot.parse(&doc).is_ok());
+        let doc = gen_doc(rng, self.sink);
+        self.parse_text(&doc, rng.chance(1, 5));
+    }
+
+    /// `parse` (or `parse_fragment`) of `doc` on the current `Xot`; the model is sent the tokens of
+    /// the real tokenizer and has to predict, from its parser model run on ITS interner state,
+    /// which entries the call adds to the three tables and under which ids.
+    pub fn parse_text(&mut self, doc: &str, fragment: bool) {
+        let dump = dump_tokens(doc, fragment);
+        let r = guarded(|| if fragment { self.cur.xot.parse_fragment(doc).is_ok() } else { self.cur.xot.parse(doc).is_ok() });
         self.sink.stat(match r {
             Some(true) => "parse.ok",
             Some(false) => "parse.err",
             None => "parse.panic",
         });
-        let cands: Vec<String> = POOL.iter().map(|s| s.to_string()).collect();
-        self.discover(&cands);
+        let mut cands: Vec<String> = POOL.iter().map(|s| s.to_string()).collect();
+        for t in &dump.toks {
+            match t {
+                Tok::Attr { prefix, local, value, .. } => {
+                    cands.push(value.clone());
+                    if let Ok(d) = xot::verif_hooks::parse_attribute(value, 0) {
+                        cands.push(d);
+                    }
+                    cands.push(prefix.clone());
+                    cands.push(local.clone());
+                }
+                Tok::ElemStart { prefix, local } | Tok::EndClose { prefix, local } => {
+                    cands.push(prefix.clone());
+                    cands.push(local.clone());
+                }
+                Tok::PI { target } => cands.push(target.clone()),
+                _ => {}
+            }
+        }
+        cands.sort();
+        cands.dedup();
+        if r.is_none() {
+            // a panicking parse: no prediction asked of the model, only tell it what happened
+            self.discover(&cands);
+            return;
+        }
+        let req = format!("idmap parse {} {} {}", if fragment { "frag" } else { "doc" }, doc.len(), dump.words);
+        self.discover_as(&cands, Some(req.trim_end().to_string()));
     }
 
     pub fn html5(&mut self) {
@@ -383,7 +438,7 @@ impl<'a> Hist<'a> {
         cands.sort();
         cands.dedup();
         self.sink.stat("html5.calls");
-        self.discover(&cands);
+        self.discover_as(&cands, Some("idmap html5".to_string()));
     }
 
     // ---- clone -------------------------------------------------------------------------------
